@@ -26,7 +26,7 @@ ALLOWED['mod_infinite_loop'] = ('tokens', {'for', 'while', 'do', '(', ')', ';', 
 for n in ('mod_int_short', 'mod_short_int', 'mod_int_long', 'mod_long_int', 'mod_int_signed', 'mod_signed_int', 'mod_int_unsigned',
           'mod_unsigned_int', 'mod_int_prefer_int_on_left'):
     ALLOWED[n] = ('tokens', {'int'})
-ALLOWED['mod_move_case_break'] = ('tokens', {'break', ';'})
+ALLOWED['mod_move_case_break'] = ('case-break', None)
 ALLOWED['mod_move_case_return'] = ('permute', None)
 ALLOWED['mod_sort_include'] = ('lines', 'include')
 ALLOWED['mod_sort_import'] = ('lines', 'import')
@@ -109,6 +109,20 @@ def judge(x, out, lang, mods):
             continue
         if a[0] == 'tokens':
             allowed |= a[1]
+        elif a[0] == 'case-break':
+            # the documented move: 'break ;' from the end of a case block to behind its closing brace.  Both streams are brought to
+            # the moved form; any other displacement of 'break' then shows in the comparison
+            def norm(st):
+                st = list(st)
+                changed = True
+                while changed:
+                    changed = False
+                    for q in range(len(st) - 2):
+                        if st[q][1] == 'break' and st[q + 1][1] == ';' and st[q + 2][1] == '}':
+                            st[q], st[q + 1], st[q + 2] = st[q + 2], st[q], st[q + 1]
+                            changed = True
+                return st
+            sx, so = norm(sx), norm(so)
         elif a[0] == 'permute':
             permute = True
         elif a[0] in ('lines', 'dup'):
@@ -170,9 +184,94 @@ def judge(x, out, lang, mods):
     return v
 
 
+SWITCH_SHAPES = b'''
+static int sw(int a, int v)
+{
+   switch (a) {
+   case 0: { v = neg(v); }
+      break;
+   case 1: { v++; break; }
+   case 2:
+      {
+         v--;
+      }
+      break;
+   case 3: { v = 1;
+      } break;
+   case 4: v += 2; break;
+   case 5:
+   case 6: { if (v) { v = 0; } }
+      break;
+   case 7: { switch (v) { case 1: { v = 3; } break; default: { v = 4; break; } } }
+      break;
+   default: { break; }
+   }
+   if (a) v++; else { v--; }
+   if (a > 1) { if (v) v = 2; } else v = 3;
+   if (a > 2) { v = 5; } else if (a > 3) v = 6; else { v = 7; }
+   while (a-- > 0) { v++; }
+   for (;;) { break; }
+   do v++; while (v < 3);
+   return (v);;
+}
+'''
+HOSTS = {
+    'C': progen.C_PREAMBLE + SWITCH_SHAPES,
+    'CPP': progen.CPP_PREAMBLE + b'static int neg(int v) { return -v; }\n' + SWITCH_SHAPES,
+    'JAVA': b'''import java.util.Map;
+import java.util.List;
+import java.util.ArrayList;
+class H {
+   static int neg(int v) { return -v; }
+   static int sw(int a, int v)
+   {
+      switch (a) {
+      case 0: { v = neg(v); }
+         break;
+      case 1: { v++; break; }
+      case 2:
+         {
+            v--;
+         }
+         break;
+      case 4: v += 2; break;
+      default: { break; }
+      }
+      if (a > 0) v++; else { v--; }
+      if (a > 1) { if (v > 0) v = 2; } else v = 3;
+      while (a-- > 0) { v++; }
+      for (;;) { break; }
+      do v++; while (v < 3);
+      return (v);
+   }
+}
+''',
+    'CS': b'''using System.Text;
+using System;
+class H {
+   static int Sw(int a, int v)
+   {
+      switch (a) {
+      case 0: { v = -v; }
+         break;
+      case 1: { v++; break; }
+      default: { break; }
+      }
+      if (a > 0) v++; else { v--; }
+      using (var x = F()) { v++; }
+      while (a-- > 0) { v++; }
+      return (v);
+   }
+}
+''',
+}
+
+
 def load_input(spec):
     if spec[0] == 'corpus':
         return corpus.read(spec[1])
+    if spec[0] == 'host':
+        return HOSTS[spec[1]]
     if spec[0] == 'gen':
         fr = fixed_rng(PROP, 'prog%d' % spec[1])
         lang = spec[2]
@@ -273,6 +372,8 @@ def check(ctx):
                 a.update({'mod_full_brace_if': 'add', 'mod_full_brace_for': 'remove', 'mod_sort_include': 'true', 'mod_sort_oc_properties': 'true'})
             for rel, lang in sr.sample(files, per):
                 tasks.append(('single:%s=%s:%s' % (o.name, val, rel), ('corpus', rel), lang, a))
+            for hl in sorted(HOSTS):
+                tasks.append(('single:%s=%s:host-%s' % (o.name, val, hl), ('host', hl), hl, a))
             for k in range(gen_per):
                 gi = fr.randrange(100000)
                 lang = fr.choice(['C', 'CPP', 'JAVA'])
@@ -288,6 +389,8 @@ def check(ctx):
             gi = fr.randrange(100000)
             lang = fr.choice(['C', 'CPP', 'JAVA'])
             tasks.append(('pair:%s=%s+%s=%s:gen%d' % (a + b + (gi,)), ('gen', gi, lang), lang, {a[0]: a[1], b[0]: b[1]}))
+        for hl in ('C', 'JAVA'):
+            tasks.append(('pair:%s=%s+%s=%s:host-%s' % (a + b + (hl,)), ('host', hl), hl, {a[0]: a[1], b[0]: b[1]}))
     # seeded subsets of mod_ options with random whitespace/comment options
     U = 60000
     ctx.extra['joint_universe'] = U
